@@ -286,6 +286,12 @@ pub fn compare_t(expected: &[Obs], real: &RealTrace, with_config: bool, uses_his
 
 fn classify(e: Option<&Obs>, g: Option<&Obs>, uses_history: bool) -> &'static str {
     use Obs::*;
+    // the content of a history's default transition (marks 'hd<n>') is part of entering through the history:
+    // where it is missing, extra or misplaced the divergence belongs to the history family (C06)
+    let is_hd = |o: Option<&Obs>| matches!(o, Some(Mark { tag, .. }) if tag.starts_with("hd"));
+    if is_hd(e) != is_hd(g) || (is_hd(e) && is_hd(g) && matches!((e, g), (Some(Mark { tag: a, .. }), Some(Mark { tag: b, .. })) if a != b)) {
+        return "history-entry";
+    }
     match (e, g) {
         (Some(Enabled(_)), Some(Enabled(_))) => "enabled-set",
         (Some(Mark { tag: t1, args: a1, config: c1 }), Some(Mark { tag: t2, args: a2, config: c2 })) => {
